@@ -216,9 +216,11 @@ Definition has_XH (g : molg) : bool :=
   existsb (fun e => let '(u, v, _) := e in xorb (is_H_m g u) (is_H_m g v)) (gedges g).
 Definition h_to_implicit (g : molg) : molg :=
   fold_left (fun g' h =>
-      remove_node (fold_left (fun g'' x => if is_H_m g'' x then g''
-                                            else upd_node g'' x (fun a => MN (m_el a) (m_aro a) (m_hc a + 1) (m_ch a) (m_hp a)))
-                             (nbrs g' h) g') h) (h_nodes_m g) g.
+      match filter (fun x => negb (is_H_m g' x)) (nbrs g' h) with
+      | [] => g'                      (* H2, H+ or a lone hydrogen stays explicit (7497a0b) *)
+      | heavy => remove_node (fold_left (fun g'' x => upd_node g'' x (fun a => MN (m_el a) (m_aro a) (m_hc a + 1) (m_ch a) (m_hp a)))
+                                        heavy g') h
+      end) (h_nodes_m g) g.
 
 (** ** validity of a match: what SubgraphSearchEngine's node_match / edge_match demand of a monomorphism
     (element and charge equal, host hcount >= pattern hcount, bond order equal), pattern -> host *)
@@ -244,6 +246,41 @@ Definition match_okb (host : hostg) (pat : molg) (m : mapping) : bool :=
   && (length m =? length (gnodes pat))%nat
   && forallb (node_okb host pat m) (gnodes pat)
   && forallb (edge_okb host m) (gedges pat).
+
+(** the same demand stated on the reaction-centre graph itself (its reactant side), the form the theorems use:
+    every rc node has an image with equal element and charge and enough hydrogens, every rc edge with a reactant-side
+    bond is a host bond of that order.  [run_c03] evaluates it on every mapping that is glued. *)
+Definition rc_node_okb (host : hostg) (m : mapping) (p : N * inode) : bool :=
+  match mget m (fst p) with
+  | Some h => match label host h with
+              | Some a => N.eqb (a_el a) (a_el (iG (snd p))) && Z.eqb (a_ch a) (a_ch (iG (snd p))) && (a_hc (iG (snd p)) <=? a_hc a)
+              | None => false end
+  | None => false
+  end.
+Definition rc_edge_okb (host : hostg) (m : mapping) (e : N * N * iedge) : bool :=
+  let '(u, v, x) := e in
+  match mget m u, mget m v with
+  | Some hu, Some hv => if 0 <? eG x then match adj host hu hv with Some o => Z.eqb o (eG x) | None => false end else true
+  | _, _ => false
+  end.
+Definition match_rcb (host : hostg) (rc : its) (m : mapping) : bool :=
+  nodupb (map fst m) && nodupb (map snd m)
+  && (length m =? length (gnodes rc))%nat
+  && forallb (rc_node_okb host m) (gnodes rc)
+  && forallb (rc_edge_okb host m) (gedges rc).
+
+(** well-formedness of the inputs, as booleans (evaluated by [run_c03] on every case) *)
+Definition peq (a b u v : N) : bool := (N.eqb a u && N.eqb b v) || (N.eqb a v && N.eqb b u).
+Fixpoint simple_edgesb {B} (es : list (N * N * B)) : bool :=
+  match es with
+  | [] => true
+  | (a, b, _) :: r => negb (N.eqb a b) && negb (existsb (fun e => let '(u, v, _) := e in peq u v a b) r) && simple_edgesb r
+  end.
+Definition wf_rcb (rc : its) : bool :=
+  nodupb (node_ids rc) && simple_edgesb (gedges rc)
+  && forallb (fun e => (0 <=? eG (snd e)) && (0 <=? eH (snd e))) (gedges rc).
+Definition wf_hostb (host : hostg) : bool :=
+  nodupb (node_ids host) && simple_edgesb (gedges host) && forallb (fun e => 0 <? snd e) (gedges host).
 
 (** ** h_to_explicit(host, nodes): every listed atom gets its implicit hydrogens as new H atoms
     (ids max+1, max+2, ...), bonded with order 1.0, and its hcount lowered to 0 *)
@@ -465,6 +502,8 @@ Definition run_c03 (invert implicit_temp explicit_stage : bool) (host : hostg) (
                      L [tmap m; tbool (match_okb host pat m);
                         match snd c with None => L [] | Some _ => L [thostg hb] end;
                         match snd c with None => L [] | Some rs => tlist (fun x => L [tmap x; tbool (match_okb hb l x)]) rs end;
-                        L (map (fun xg => t_glued show_ex hb rc (fst xg) (snd xg)) gs)]) glued in
-      L [L [trc (negb implicit_temp) rc; tmolg l; tmolg r]; tbool flag; tmolg pat; L rows; tbool crashed]
+                        L (map (fun xg => t_glued show_ex hb rc (fst xg) (snd xg)) gs);
+                        tbool (wf_hostb hb && forallb (fun xg => match_rcb hb rc (fst xg)) gs)]) glued in
+      L [L [trc (negb implicit_temp) rc; tmolg l; tmolg r]; tbool flag; tmolg pat; L rows; tbool crashed;
+         tbool (wf_rcb rc && wf_hostb host)]
   end.
